@@ -26,7 +26,12 @@ class WorkerTmp:
         # change the owner and group of the file if the worker will run as
         # a different user or group, so that the worker can modify the file
         if cfg.uid != os.geteuid() or cfg.gid != os.getegid():
-            util.chown(name, cfg.uid, cfg.gid)
+            try:
+                util.chown(name, cfg.uid, cfg.gid)
+            except Exception:
+                os.close(fd)
+                util.unlink(name)
+                raise
 
         # unlink the file so we don't leak temporary files
         try:
